@@ -156,6 +156,21 @@ def run(prog, rep):
             okc = dsz is not None and bound is not None and bound + 1 <= dsz
             rep.ob("C16.1", ps, "strcpy#%d" % nsp, okc, "strcpy (%s[%s], <= %s bytes + NUL)" % (dst, dsz, bound) if okc else
                    "strcpy into %s[%s] from a string of up to %s bytes" % (dst, dsz, bound), c)
+    # the line limit is not undercut: a zero byte stored at a constant index into one of the parser's text buffers (the "this should
+    # not happen" clamps) sits at index >= the longest line fgets can deliver (size - 1); one less cuts the last character of every
+    # legal line of exactly that length - a 1024-byte header loses its `]` and with it its section
+    if fsz:
+        cuts = []
+        for (b, i, n) in ps.nodes(elsewhere=True):
+            if n["k"] == "asg" and n.get("op") == "=" and cv(n["r"]) == 0 and strip_casts(n["l"])["k"] == "idx":
+                ix = cv(strip_casts(n["l"])["i"])
+                t_ = u.type_of(strip_casts(n["l"]))
+                if ix is not None and ix >= 16 and t_ and t_.get("k") == "int" and t_.get("w") == 8:
+                    cuts.append((n, ix))
+        short = [(n, ix) for (n, ix) in cuts if ix < fsz - 1]
+        rep.ob("C16.1", ps, "clamp", not short, "%d clamp store(s) cut at index >= %d, the longest line fgets delivers" % (len(cuts), fsz - 1) if not short else
+               "line %d: a terminator is stored at index %d of a text buffer, but lines of up to %d bytes are legal (fgets reads %d): a line of exactly that length loses its "
+               "last character" % (line(short[0][0]), short[0][1], fsz - 1, fsz), short[0][0] if short else ps.loc[0])
     # hand-built strings are terminated: a local char array that is filled byte by byte (`buf[n++] = c`) is a string only after a
     # zero byte was stored behind the last byte written; every call that reads the array as a string (p_strdup, strlen, ...) is
     # reached with that store made after the last byte store on the path.  (Arrays filled by sscanf / fgets / strcpy are
@@ -812,6 +827,9 @@ def run(prog, rep):
 RENAME_LOCALS = ['src/pinifile.c']
 
 SELFTEST = [
+    dict(id="line-clamp-one-short", file="src/pinifile.c", expect="C16.1", count=1,
+         old="\t\tif (P_UNLIKELY (strlen (dst_line) > P_INI_FILE_MAX_LINE))\n\t\t\tdst_line[P_INI_FILE_MAX_LINE] = '\\0';",
+         new="\t\tif (P_UNLIKELY (strlen (dst_line) >= P_INI_FILE_MAX_LINE))\n\t\t\tdst_line[P_INI_FILE_MAX_LINE - 1] = '\\0';"),
     dict(id="list-last-element-unterminated", file="src/pinifile.c", expect="C16.1",
          old="\tif (buf_cnt > 0) {\n\t\tbuf[buf_cnt] = '\\0';\n", new="\tif (buf_cnt > 0) {\n"),
     dict(id="list-buffer-no-initial-zero-neutral", file="src/pinifile.c", expect=None,
